@@ -112,12 +112,15 @@ def gen_program(rng: random.Random, handles: str, resources=("r0",), ntasks=None
               "linear"  every Handle state is passed to at most one call per task body, and a task
                         body uses each of its parameters at most once
               "shared"  Handle states may be passed to several sibling calls
+              "cross"   see gen_cross: the same un-keyed Handle state passed on by children of DIFFERENT parents
 
     The same call expression is written twice in one body only if the callee returns an int: a
     duplicated call is evaluated once and its result OBJECT is put in both places, and a value that
     holds one container object twice does not hash like an equal value built from distinct objects
     (known finding, exercised by its own witness in harness/props/c07.py).
     """
+    if handles == "cross":
+        return gen_cross(rng, resources)
     n = ntasks or rng.choice([3, 4, 4, 5, 5, 6])
     arity = [0] + [rng.randint(0, 2) for _ in range(n - 1)]
     prog: list = [None] * n
@@ -183,4 +186,49 @@ def gen_program(rng: random.Random, handles: str, resources=("r0",), ntasks=None
         if i > 0 and resources and rng.random() < 0.6:
             lim = {rng.choice(list(resources)): 1}
         prog[i] = {"n": arity[i], "body": b, "limits": lim}
+    return prog
+
+
+def gen_cross(rng: random.Random, resources=("r0",)):
+    """Two or three PARENT jobs (distinct calls, running concurrently, each optionally gated by its own
+    upstream job) each pass the SAME un-keyed Handle state to one child call: a fresh H("h0") constructed in
+    every parent, or the result of a common `open()` task (de-duplicated by CSE, so every parent holds the same
+    state).  Inside one parent every Handle state is passed to a single call, so with one fork counter per
+    parent job every fork is a first fork; which child preprocesses first is decided by the completion order
+    of the parents / gates and by limit waits."""
+    k = rng.choice([2, 2, 3])
+    parents = list(range(1, k + 1))
+    nuse = rng.choice([1, 2])
+    uses = list(range(k + 1, k + 1 + nuse))
+    t_open = k + 1 + nuse
+    gates = list(range(t_open + 1, t_open + 1 + k))
+    src_kind = rng.choice(["fresh", "open", "open"])
+    src = ("h", 0) if src_kind == "fresh" else ("call", t_open, ())
+    gated = [rng.random() < 0.6 for _ in parents]
+
+    def lim():
+        return {rng.choice(list(resources)): 1} if resources and rng.random() < 0.6 else None
+
+    prog: list = [None] * (gates[-1] + 1)
+    prog[0] = {"n": 0, "limits": None,
+               "body": ("l", tuple(("call", pt, (("call", gates[i], ()),) if gated[i] else ()) for i, pt in enumerate(parents)))}
+    for i, pt in enumerate(parents):
+        items = [("call", rng.choice(uses), (src,))]
+        if rng.random() < 0.5:
+            items.append(("c", i))                      # makes the parents' results differ
+        if rng.random() < 0.3:
+            items.insert(0, ("call", gates[i], ()))     # an unrelated sibling of the Handle-taking child
+        prog[pt] = {"n": 1 if gated[i] else 0, "body": ("l", tuple(items)), "limits": lim()}
+    for u in uses:
+        kind = rng.choice(["const", "return", "pass"])
+        if kind == "const":
+            b = ("c", u)
+        elif kind == "return":
+            b = ("l", (("c", u), ("p", 0)))             # returns the Handle: apply_call(eval_hash) state
+        else:
+            b = ("l", (("call", gates[0], ()), ("p", 0)))
+        prog[u] = {"n": 1, "body": b, "limits": lim()}
+    prog[t_open] = {"n": 0, "body": ("h", 0), "limits": lim()}
+    for i, g in enumerate(gates):
+        prog[g] = {"n": 0, "body": ("c", 100 + i), "limits": lim()}
     return prog
